@@ -141,7 +141,8 @@ def has_noreturn(e):
 
 
 class CFG:
-    def __init__(self, fn=None, body=None, name=None):
+    def __init__(self, fn=None, body=None, name=None, loop_body=False):
+        # loop_body: the region is the body of a loop; `continue` (and `break`) end the region
         self.fn = fn
         self.name = name or (fn["full"] if fn else "<region>")
         self.nodes = []
@@ -149,7 +150,7 @@ class CFG:
         self.exit = self._new("exit")
         self.abort = self._new("abort")
         body = body if body is not None else fn["body"]
-        start = self._stmt(body, self.exit.id, None, None)
+        start = self._stmt(body, self.exit.id, self.exit.id if loop_body else None, self.exit.id if loop_body else None)
         first = start
         if fn is not None and fn.get("ctor"):
             # constructor initialisers run, in initialisation order, before the body
